@@ -22,10 +22,12 @@ def main():
                 p.filter_process = old['process']
                 p.filter_class = list(old['classes'])
                 p.filter_subclass = list(old['subclasses'])
-                try:
-                    list(getattr(p, what)(io.BytesIO(data)))
-                except Exception:  # noqa
-                    pass
+                # ... whichever listing that was: the other listings of the same object too, read to their end
+                for w2 in ('traces', 'callstacks', what):
+                    try:
+                        list(getattr(p, w2)(io.BytesIO(data)))
+                    except Exception:  # noqa
+                        pass
             p.filter_tid = cfg['tid']
             p.filter_process = cfg['process']
             p.filter_class = list(cfg['classes'])
